@@ -97,6 +97,11 @@ def gen(rng, style="mixed"):
         sc.env["PMSIM_MEM"] = "1"
     if rng.random() < 0.5:
         sc.env["PMSIM_STUBBORN"] = "1"      # coprocess helpers that ignore SIGTERM and exit only on EOF of their socket
+    if any(d.transport == "tcp" for d in sc.cfg.devs) and rng.random() < 0.5:
+        # the first connect attempts of the tcp devices fail in every way connect() can fail (at once with an errno, later through
+        # poll with POLLHUP / SO_ERROR, or stay pending): no descriptor may be left behind by a failed attempt
+        S.insert(0, ("raw", ["PLAN " + rng.choice(["syncfail", "syncfail", "refuse-hup", "refuse-soerr", "pending", "ok-now"]) for _ in range(rng.randint(1, 7))]))
+        sc.tags["plans"] = True
     return sc
 
 
